@@ -1,4 +1,5 @@
 import Ftp.Spec.Pure
+import Ftp.Lemmas.Ascii
 /-
   C05 - ASCII type converts line endings exactly, independent of chunking.
   Model: `Ftp.Ascii` (ascii_istream::read behind a chopping source, ascii_ostream::write/flush).
@@ -11,7 +12,7 @@ open Ftp Ftp.Ascii
     within the stated number of calls) is the whole-string substitution CR LF | CR | LF -> CR LF -/
 theorem upload_eq_spec (bufSize : Nat) (hb : 1 ≤ bufSize) (data : Bytes) (sched sizes : List Nat) :
     upload bufSize data sched sizes = (Spec.ulSpec data, true) := by
-  sorry
+  exact upload_spec bufSize hb data sched sizes
 
 /-- upload output does not depend on any of the chunkings -/
 theorem upload_chunking_independent (b1 b2 : Nat) (h1 : 1 ≤ b1) (h2 : 1 ≤ b2) (data : Bytes)
@@ -23,7 +24,8 @@ theorem upload_chunking_independent (b1 b2 : Nat) (h1 : 1 ≤ b1) (h2 : 1 ≤ b2
     and the final flush are the whole-string substitution CR LF -> LF (a final CR is delivered by flush) -/
 theorem download_eq_spec (chunks : List Bytes) :
     download chunks false [] = Spec.dlSpec chunks.flatten := by
-  sorry
+  rw [download_spec]
+  simp [dlRest]
 
 /-- download output does not depend on the partition -/
 theorem download_chunking_independent (c1 c2 : List Bytes) (h : c1.flatten = c2.flatten) :
@@ -32,7 +34,7 @@ theorem download_chunking_independent (c1 c2 : List Bytes) (h : c1.flatten = c2.
 
 /-- LF-only text (no CR) survives upload followed by download unchanged -/
 theorem roundtrip (s : Bytes) (h : CR ∉ s) : Spec.dlSpec (Spec.ulSpec s) = s := by
-  sorry
+  exact roundtrip_aux s h
 
 /-- the reference substitutions are the ones the property names: upload maps CR LF, lone CR and lone LF to CR LF -/
 theorem ulSpec_cases (c : Byte) (t : Bytes) :
@@ -41,7 +43,14 @@ theorem ulSpec_cases (c : Byte) (t : Bytes) :
     (t.head? ≠ some LF → Spec.ulSpec (CR :: t) = CR :: LF :: Spec.ulSpec t) ∧
     Spec.ulSpec (LF :: t) = CR :: LF :: Spec.ulSpec t ∧
     (c ≠ CR → c ≠ LF → Spec.ulSpec (c :: t) = c :: Spec.ulSpec t) := by
-  sorry
+  refine ⟨rfl, ?_, ?_, ?_, ?_⟩
+  · simp [Spec.ulSpec, Spec.ulGo, LF_ne_CR]
+  · intro h
+    simp only [Spec.ulSpec, Spec.ulGo, if_true]
+    rw [ulGo_true_eq_false t h]
+  · simp [Spec.ulSpec, Spec.ulGo, LF_ne_CR]
+  · intro h1 h2
+    simp [Spec.ulSpec, Spec.ulGo, h1, h2]
 
 /-- non-vacuity: every state of both converters is reached -/
 example : upload 2 (str "a\r\nb\nc\rd\r") [1, 1] [1, 2] = (str "a\r\nb\r\nc\r\nd\r\n", true) ∧
